@@ -31,7 +31,7 @@ M = [
  ("dec-reset-before-chunks", ["C02", "C13"], "decode/decode.go", "\tprevMID := int64(-1)\n", "\tif dst != nil && !metadataOnly {\n\t\tdst.Reset(m.ViewBox, m.Palette)\n\t}\n\tprevMID := int64(-1)\n"),
  ("dec-chunklen-int32", ["C02", "C13"], "decode/decode.go", "lenSrcWant := int64(len(src)) - int64(length)", "lenSrcWant := int64(int16(len(src)) - int16(length))"),
  ("dec-palette-index-oob", ["C02", "C13"], "decode/decode.go", "length, format := 1+int(src[0]&0x3f), src[0]>>6", "length, format := 1+int(src[0]&0x7f), src[0]>>6"),
- ("dec-writes-input", ["C02", "C18"], "decode/decode.go", "\tsrc = src[len(ivg.Magic):]\n", "\tif len(src) > 40 {\n\t\tsrc[40] |= 0\n\t\tsrc[39] ^= src[39] & 0\n\t}\n\tsrc = src[len(ivg.Magic):]\n"),
+ ("dec-writes-input", "C18", "decode/decode.go", "\tsrc = src[len(ivg.Magic):]\n", "\tif len(src) > 40 {\n\t\tsrc[40] |= 0\n\t\tsrc[39] ^= src[39] & 0\n\t}\n\tsrc = src[len(ivg.Magic):]\n"),
  # ---- C03 / grammar
  ("dec-L-reps-4bit", "C03", "decode/decode.go", "case 0x00, 0x01:\n\t\t\top = \"L (absolute lineTo)\"\n\t\t\tnCoords = 2\n\t\t\tnReps = 1 + int(opcode&0x1f)", "case 0x00, 0x01:\n\t\t\top = \"L (absolute lineTo)\"\n\t\t\tnCoords = 2\n\t\t\tnReps = 1 + int(opcode&0x0f)"),
  ("dec-c7-startpath", "C03", "decode/decode.go", "case opcode < 0xc7:\n\t\treturn decodeStartPath", "case opcode <= 0xc7:\n\t\treturn decodeStartPath"),
@@ -48,20 +48,20 @@ M = [
  ("ren-startpath-adj", "C04", "render/render.go", "z.flatColor = z.cReg[(z.cSel-adj)&0x3f]", "z.flatColor = z.cReg[(z.cSel-adj)&0x1f]"),
  ("ren-stop-index-unmasked", "C04", "render/render.go", "c := z.cReg[(cBase+i)&0x3f]", "c := z.cReg[(cBase+i)%60]"),
  ("ren-lod-le", "C04", "render/render.go", "!(z.lod0 <= h && h < z.lod1)", "!(z.lod0 <= h && h <= z.lod1)"),
- ("ren-creg-not-from-palette", ["C04", "C14", "C17"], "render/render.go", "\tz.cReg = palette\n", "\tz.cReg = ivg.DefaultPalette\n"),
+ ("ren-creg-not-from-palette", ["C04", "C14"], "render/render.go", "\tz.cReg = palette\n", "\tz.cReg = ivg.DefaultPalette\n"),
  ("ren-offsets-ge", "C04", "render/render.go", "!(n > prevN)", "!(n >= prevN)"),
  ("ren-transparent-drawn", "C04", "render/render.go", "z.disabled = z.flatColor.A == 0", "z.disabled = false"),
  ("ren-nreg-adj", "C04", "render/render.go", "z.nReg[(z.nSel-adj)&0x3f] = f", "z.nReg[(z.nSel-adj)&0x3f] = f\n\tif adj == 6 {\n\t\tz.nReg[(z.nSel-5)&0x3f] = f\n\t}"),
  ("ren-matrix-order", ["C04", "C15", "C19"], "render/render.go", "b := float64(z.nReg[(nBase-5)&0x3f])\n\tc := float64(z.nReg[(nBase-4)&0x3f])", "c := float64(z.nReg[(nBase-5)&0x3f])\n\tb := float64(z.nReg[(nBase-4)&0x3f])"),
  # ---- C05 / geometry
  ("ren-hline-keeps-smooth", "C05", "render/render.go", "func (z *Renderer) AbsHLineTo(x float32) {\n\tif z.disabled {\n\t\treturn\n\t}\n\t_, py := z.z.Pen()\n\tz.prevSmoothType = smoothTypeNone\n", "func (z *Renderer) AbsHLineTo(x float32) {\n\tif z.disabled {\n\t\treturn\n\t}\n\t_, py := z.z.Pen()\n"),
- ("ren-rely-scalex", ["C05", "C16"], "render/render.go", "func (z *Renderer) relY(y float32) float32   { return z.scaleY * y }", "func (z *Renderer) relY(y float32) float32   { return z.scaleX * y }"),
+ ("ren-rely-scalex", "C05", "render/render.go", "func (z *Renderer) relY(y float32) float32   { return z.scaleY * y }", "func (z *Renderer) relY(y float32) float32   { return z.scaleX * y }"),
  ("ren-relmove-before-close", "C05", "render/render.go", "z.prevSmoothType = smoothTypeNone\n\tz.z.ClosePath()\n\tz.z.MoveTo(z.relVec2(x, y))", "z.prevSmoothType = smoothTypeNone\n\tx, y = z.relVec2(x, y)\n\tz.z.ClosePath()\n\tz.z.MoveTo(x, y)"),
  ("ren-smoothcube-first-ctrl", "C05", "render/render.go", "x1, y1 := z.implicitSmoothPoint(smoothTypeCube)\n\tx2, y2 = z.absVec2(x2, y2)\n\tx, y = z.absVec2(x, y)\n\tz.prevSmoothType = smoothTypeCube\n\tz.prevSmoothPointX, z.prevSmoothPointY = x2, y2", "x1, y1 := z.implicitSmoothPoint(smoothTypeCube)\n\tx2, y2 = z.absVec2(x2, y2)\n\tx, y = z.absVec2(x, y)\n\tz.prevSmoothType = smoothTypeCube\n\tz.prevSmoothPointX, z.prevSmoothPointY = x1, y1"),
  ("ren-draw-at-rmin", ["C05", "C16"], "render/render.go", "z.z.Draw(z.r, z.fill, image.Pt(0, 0))", "z.z.Draw(z.r, z.fill, z.r.Min)"),
  ("ren-reflect-half", "C05", "render/render.go", "return 2*px - z.prevSmoothPointX, 2*py - z.prevSmoothPointY", "return 2*px - z.prevSmoothPointX, py - z.prevSmoothPointY + py*0.999"),
  ("ren-quad-smoothtype", "C05", "render/render.go", "x1, y1 = z.relVec2(x1, y1)\n\tx, y = z.relVec2(x, y)\n\tz.prevSmoothType = smoothTypeQuad", "x1, y1 = z.relVec2(x1, y1)\n\tx, y = z.relVec2(x, y)\n\tz.prevSmoothType = smoothTypeCube"),
- ("ren-bias-sign", ["C05", "C16"], "render/render.go", "z.biasY = -z.viewBox.MinY", "z.biasY = z.viewBox.MinY"),
+ ("ren-bias-sign", "C05", "render/render.go", "z.biasY = -z.viewBox.MinY", "z.biasY = z.viewBox.MinY"),
  # ---- C06 / arcs
  ("arc-large-eq-sweep", "C06", "render/render.go", "if largeArc == sweep {\n\t\tstep2 = -step2\n\t}", "if largeArc != sweep {\n\t\tstep2 = -step2\n\t}"),
  ("arc-delta-wrong-sweep", "C06", "render/render.go", "if sweep {\n\t\tif deltaTheta < 0 {\n\t\t\tdeltaTheta += 2 * math.Pi\n\t\t}\n\t} else {", "if !sweep {\n\t\tif deltaTheta < 0 {\n\t\t\tdeltaTheta += 2 * math.Pi\n\t\t}\n\t} else {"),
@@ -83,7 +83,7 @@ M = [
  ("enc-setnreg-tie", "C08", "encode/encode.go", "if n := b.encodeCoordinate(f); n < nBest {", "if n := b.encodeCoordinate(f); n <= nBest {"),
  ("enc-real-2byte-limit", "C08", "encode/buffer.go", "if u := uint32(f); float32(u) == f && u < 1<<14 {", "if u := uint32(f); float32(u) == f && u <= 1<<14 {"),
  # ---- C09
- ("is2-mod-10", ["C09", "C01"], "color.go", "is2 := func(u uint8) bool { return u%0x11 == 0 }", "is2 := func(u uint8) bool { return u%0x11 == 0 || u == 0x10 }"),
+ ("is2-mod-10", "C09", "color.go", "is2 := func(u uint8) bool { return u%0x11 == 0 }", "is2 := func(u uint8) bool { return u%0x11 == 0 || u == 0x10 }"),
  ("encode1-divisor", ["C09", "C01"], "color.go", "b := c.data.B / 0x3f\n\t\t\treturn 25*r + 5*g + b, true", "b := c.data.B / 0x40\n\t\t\treturn 25*r + 5*g + b, true"),
  ("blend-round-127", "C09", "color.go", "uint8(((p * uint32(rgba0.A)) + q*uint32(rgba1.A) + 128) / 255),", "uint8(((p * uint32(rgba0.A)) + q*uint32(rgba1.A) + 127) / 255),"),
  ("palette-format-bits", ["C09", "C01"], "encode/encode.go", "e.altBuf = append(e.altBuf, byte(n)|0x80)\n\t\t\tfor _, c := range m.Palette[:n+1] {\n\t\t\t\te.altBuf = append(e.altBuf, c.R, c.G, c.B)", "e.altBuf = append(e.altBuf, byte(n)|0x80)\n\t\t\tfor _, c := range m.Palette[:n+1] {\n\t\t\t\te.altBuf = append(e.altBuf, c.R, c.B, c.G)"),
@@ -111,7 +111,7 @@ M = [
  ("vb-naninf-mask", "C13", "decode/decode.go", "return math.Float32bits(f)&0x7f800000 == 0x7f800000", "return math.Float32bits(f)&0x7fc00000 == 0x7fc00000"),
  ("pal-count-no-plus1", ["C13", "C09"], "decode/decode.go", "length, format := 1+int(src[0]&0x3f), src[0]>>6", "length, format := int(src[0]&0x3f), src[0]>>6"),
  ("chunk-length-unchecked", ["C13", "C03"], "decode/decode.go", "if int64(len(src)) != lenSrcWant {", "if int64(len(src)) > lenSrcWant {"),
- ("viewbox-only-before-chunks", "C13", "decode/decode.go", "\tif metadataOnly {\n\t\treturn nil\n\t}\n\tif dst != nil {", "\tif metadataOnly && nMetadataChunks > 5 {\n\t\treturn nil\n\t}\n\tif metadataOnly {\n\t\treturn nil\n\t}\n\tif dst != nil {"),
+ ("viewbox-only-skips-later-chunks", "C13", "decode/decode.go", "\tfor ; nMetadataChunks > 0; nMetadataChunks-- {\n", "\tfor ; nMetadataChunks > 0; nMetadataChunks-- {\n\t\tif metadataOnly && m.ViewBox != ivg.DefaultViewBox {\n\t\t\treturn nil\n\t\t}\n"),
  ("pal-nonpremul-kept", ["C13", "C03"], "color.go", "if c.typ != ColorTypeRGBA || !ValidAlphaPremulColor(c.data) {\n\t\treturn color.RGBA{0x00, 0x00, 0x00, 0xff}, false", "if c.typ != ColorTypeRGBA || !ValidAlphaPremulColor(c.data) && c.data.A != 0x10 {\n\t\treturn color.RGBA{0x00, 0x00, 0x00, 0xff}, false"),
  ("mid-order-unchecked", ["C13", "C03"], "decode/decode.go", "if int64(mid) <= *prevMID {", "if int64(mid) < *prevMID {"),
  # ---- C14
@@ -128,7 +128,7 @@ M = [
  ("compose-drops-bias", ["C15", "C04", "C19"], "render/render.go", "c - a*zBX - b*zBY,", "c - a*zBX,"),
  ("reflect-odd-zero", "C15", "render/gradient.go", "return 1 - (x - math.Floor(x))\n\t\tcase SpreadRepeat:", "return math.Ceil(x) - x\n\t\tcase SpreadRepeat:"),
  ("interp-nonpremul", "C15", "render/gradient.go", "uint16(s*r.R0 + t*r.R1),", "uint16(s*r.R0 + t*r.R1 + 300*s*t),"),
- ("pixel-centre", ["C15", "C16"], "render/gradient.go", "py := float64(y) + 0.5", "py := float64(y)"),
+ ("pixel-centre", "C15", "render/gradient.go", "py := float64(y) + 0.5", "py := float64(y)"),
  # ---- C16
  ("vec-drawop-not-reset", "C16", "raster/vec/rasterizer.go", "\tz.DrawOp = draw.Over\n}", "}"),
  ("ren-reset-image-size", ["C16", "C05"], "render/render.go", "z.z.Reset(width, height)", "z.z.Reset(width+z.r.Min.X, height)"),
@@ -138,7 +138,7 @@ M = [
  ("ren-reset-keeps-nreg", "C17", "render/render.go", "\tz.nReg = [64]float32{}\n", ""),
  ("ren-reset-keeps-lod", "C17", "render/render.go", "\tz.lod1 = positiveInfinity\n\tz.cSel = 0", "\tz.cSel = 0"),
  ("ren-reset-keeps-csel", "C17", "render/render.go", "\tz.cSel = 0\n\tz.nSel = 0", "\tz.nSel = 0"),
- ("grad-keeps-ranges", ["C17", "C15", "C04"], "render/gradient.go", "g.Ranges = AppendRanges(g.Ranges[:0], stops)", "g.Ranges = AppendRanges(g.Ranges, stops)"),
+ ("grad-keeps-ranges", ["C17", "C04"], "render/gradient.go", "g.Ranges = AppendRanges(g.Ranges[:0], stops)", "g.Ranges = AppendRanges(g.Ranges, stops)"),
  # ---- C18
  ("dec-global-scratch", "C18", "decode/decode.go", "func decodeCoordinates(coords []float32, p printer, src buffer) (src1 buffer, err error) {\n\tfor i := range coords {", "var scratchCoord float32\n\nfunc decodeCoordinates(coords []float32, p printer, src buffer) (src1 buffer, err error) {\n\tfor i := range coords {\n\t\tscratchCoord = coords[i]"),
  ("reset-writes-defaultpalette", "C18", "encode/encode.go", "\tmcSuggestedPalette := m.Palette != ivg.DefaultPalette\n", "\tmcSuggestedPalette := m.Palette != ivg.DefaultPalette\n\tivg.DefaultPalette[63] = color.RGBA{0x00, 0x00, 0x00, 0xff}\n"),
@@ -147,7 +147,7 @@ M = [
  ("lin-ma-mb", "C19", "generate/generate.go", "vbx2grad := Aff3{\n\t\tma, mb, -ma*x1 - mb*y1,", "vbx2grad := Aff3{\n\t\tmb, ma, -ma*x1 - mb*y1,"),
  ("circ-sign", "C19", "generate/generate.go", "invR, 0, -cx * invR,", "invR, 0, cx * invR,"),
  ("matrix-order", "C19", "generate/generate.go", "d.SetNReg(uint8(len(transform)-i), false, v)", "d.SetNReg(uint8(1+i), false, v)"),
- ("nsel-not-restored", ["C19", "C07"], "generate/generate.go", "\td.SetCSel(oldCSel)\n\td.SetNSel(oldNSel)", "\td.SetCSel(oldCSel)\n\td.SetNSel(oldCSel)"),
+ ("nsel-not-restored", ["C19", "C07"], "generate/generate.go", "\td.SetCSel(oldCSel)\n\td.SetNSel(oldNSel)", "\td.SetCSel(oldCSel)\n\td.SetNSel(oldNSel + 1)"),
  ("stops-uint8", "C19", "generate/generate.go", "if len(stops) > 64-len(transform) {", "if uint8(len(stops)) > uint8(64-len(transform)) {"),
  ("ren-unmasked-incr", "C19", "render/render.go", "z.cSel = (z.cSel + 1) & 0x3f", "z.cSel++"),
  ("ellip-md-sign", "C19", "generate/generate.go", "md := -ry * invRSSR", "md := +ry * invRSSR"),
